@@ -177,7 +177,7 @@ CHECKS["C05"] = dict(
     technique="differential runtime monitor: writer vs independent canonical encoder, exhaustive integer/length sweeps, round trip through the real parser, ASan+UBSan",
     level_note=LVL_NOTE,
     title="Writer output is the canonical encoding and round-trips through the parser",
-    rule="c05i: one evaluation = one integer written into an exact-size [v] document; c05d: one double; c05s: one (length, kind) with random content; c05t: one well-formed call sequence derived from a random tree. "
+    rule="c05i: one evaluation = one integer written into an exact-size [v] document; c05d: one double; c05s: one (length, kind) with random content; c05o: one value whose source overlaps its destination inside the writer's own buffer; c05t: one well-formed call sequence derived from a random tree. "
          "non-trivial = every c05t sequence with >= 3 calls, every length, every 256th swept integer/double (hash-sampled to bound memory); distinct = hash of the value / length+kind / encoding",
     exhaustive_note="integers +-(2^k+d), k=0..63, |d|<=2^14 (quick) / 2^16 (thorough); all 2^32 int32 values (thorough, gcc -O2 build); all lengths 0..70000 x {string,bytes,name} (thorough)",
     assumptions=["vt_encode / ve_int / ve_strlike in harness/vh.c are the canonical encoding"],
@@ -185,6 +185,7 @@ CHECKS["C05"] = dict(
           dict(name="c05all32", src=WRITER, build="plainO2", mode="c05i", cases=(0, 4294967296), opt="all32", thorough_only=True, require=["integers_swept"]),
           dict(name="c05d", src=WRITER, build="gasan", mode="c05d", cases=(4000000, 40000000), require=["doubles"]),
           dict(name="c05s", src=WRITER, build="gasan", mode="c05s", cases=(4872, 210003), require=["lengths_checked"]),
+          dict(name="c05o", src=WRITER, build="gasan", mode="c05o", cases=(300000, 4000000), require=["overlapping_source_writes"]),
           dict(name="c05t", src=WRITER, build="gasan", mode="c05t", cases=(600000, 8000000), require=["write_calls", "values_decoded_back", "writer_verify_checked"])],
 )
 
